@@ -1,34 +1,49 @@
 """C14 -- cross-referenced fields are inherited, own fields win, lookup always terminates."""
+import contextlib
 import itertools
+import re
+import signal
 
 import compat  # noqa: F401
 from props.base import to_request, corpus_for  # noqa: F401
 from props import dbcommon
 
 ID = 'C14'
-HANG_CLAUSE = 'terminates'
-CASE_TIMEOUT = 60
+HANG_CLAUSE = 'terminates'   # check.py: a case that does not return is a failing input of this clause
+CASE_TIMEOUT = 60             # wall seconds per case (check.py, SIGALRM); the module's own watchdog counts CPU time (SIGPROF)
 LEAN_MODULES = ['PybtexModel.Props.C14']
 THEOREMS = {
     'C14_own_field_wins': 'a field the entry defines itself always wins',
     'C14_inherits_nearest': 'a field the entry lacks is seen with the value of the first entry along the cross-reference chain that defines the field or role (model = reference lookup)',
     'C14_person_roles_joined': "person roles are visible as ' and '-joined fields",
     'C14_missing_iff': 'a field counts as missing iff no entry along the whole chain defines it',
-    'C14_terminates': 'lookup terminates for every cross-reference graph incl. self and mutual references; a cycle without the field gives missing; walking further never changes the answer',
-    'C14_dangling': 'lookup through a dangling reference gives missing, and resolution reports a bad cross-reference',
+    'C14_terminates': 'lookup terminates for every cross-reference graph incl. self and mutual references; a cycle without the field gives missing; walking further never changes the answer; the lookup follows at most as many cross-references as the database has entries',
+    'C14_dangling': 'lookup through a dangling reference gives missing, and resolution reports a bad cross-reference for every entry that goes into the bibliography (cited or appended)',
     'C14_engines_agree': 'the BST field variables (Field.value, missing$) and the template field node of the Python engine return the same lookup',
+    'C14_python_names_partial': 'the names node of the Python engine shows a role the entry has itself: the persons whose joined names are the reference lookup and the BST value',
+    'C14_python_names_neg': 'witness: a role (and the year the labels and sort keys read) inherited from the cross-referenced parent is seen by the BibTeX engine and not by the names node / label / sorting styles of the Python engine (finding C14-python-engine-reads-own-persons)',
 }
 NAMES = ['note', 'howpublished', 'author', 'zz']
 RULE = ('exhaustive: every cross-reference graph on <=N entries (keys a, B, c; each crossref in {none, each key, each key in the other '
-        'case, dangling}; N=2 quick + a slice of N=3, N=3 thorough) x every assignment of the fields note, howpublished and the role '
-        'author to the entries x every (entry, name) query over %r, observed through Entry._find_field (with and without bib_data), a '
-        'generated .bst writing every field or <MISSING>, and the unsrt Python style; plus seeded random longer chains/cycles with '
-        'mixed-case field names.  non-trivial = some entry has a crossref; distinct by case JSON' % (NAMES,))
+        'case, dangling}; N=2 quick + a slice of N=3, N=3 thorough) x every assignment of the fields note, howpublished (absent / value / '
+        'EMPTY value) and the role author to the entries x every (entry, name) query over %r, observed through Entry._find_field (with and '
+        'without bib_data), a generated .bst writing every field or <MISSING>, and the unsrt Python style -- with every entry cited and, '
+        'when all references point down the file, with ONLY the first entry cited (min_crossrefs 2: parent read but not appended; 1: '
+        'appended); chains and cycles of 300-1000 entries looked up from their first entry; the names / field nodes and the unsrt, plain '
+        'and alpha styles of the Python engine on book / inproceedings / misc entries that inherit author, editor, year, title (each '
+        'style compared with its own output on the database with the inherited values written out); plus seeded random longer '
+        'chains/cycles with mixed-case field names.  non-trivial = some entry has a crossref; distinct by case JSON' % (NAMES,))
 TRUSTED = ['str.lower is ASCII in the model', "person names are of the form 'Last, First' so that str(Person(name)) == name (name splitting is C04)",
            'the Python engine is observed through the plain-text rendering of the unsrt misc template: the value of note / howpublished '
-           'is recognised by a token unique to (entry, field)']
-ASSUMPTIONS = ['field values are ASCII tokens; every entry is cited explicitly when observed through an engine (so that the filtered '
-               'reading keeps every entry: C05 finding #16 is about the other case)']
+           'is recognised by a token unique to (entry, field); an empty value shows no token',
+           'the Python styles (unsrt, plain, alpha) are not modelled: what they must show for an entry that inherits is what they show for '
+           'the same entry with the inherited values written out (the flattening is checked against the Lean reference lookup)']
+ASSUMPTIONS = ['field values are ASCII tokens or empty; when observed through an engine every entry is cited explicitly, or only the first '
+               'entry of a file whose references all point down the file (so that the filtered reading keeps every entry needed: the C05 '
+               'findings about parents that precede their children are about the other case)',
+               'the model follows the code with proposed_fixes/C05-2 (dangling reference of an appended parent reported) applied; '
+               'proposed_fixes/C14-3 (lookup as a loop) does not change the model: without it chains of about 490 or more '
+               'cross-references end in RecursionError (clause terminates)']
 
 BST = r'''ENTRY { note howpublished author zz } {} {}
 FUNCTION {show} { "\bibitem{" cite$ * "}" * write$ newline$
@@ -54,11 +69,48 @@ def _plugins():
     return Parser, Style, {'bib_format': Parser, 'label_style': LabelStyle, 'name_style': NameStyle, 'sorting_style': SortingStyle}
 
 
-def _lookup(entry, name, bib):
+class _NoTermination(BaseException):
+    """raised by the CPU-time watchdog (not an Exception: nothing in pybtex may swallow it)"""
+
+
+NO_TERMINATION = 'INTERNAL:NoTermination'
+SKIPPED = 'SKIPPED:after-no-termination'      # not run: an earlier lookup of the same case did not terminate (ignored by the oracle)
+_STATE = {'timed_out': False, 'count': 0}     # per case / per process
+
+
+@contextlib.contextmanager
+def _cpu_limit(seconds):
+    """Run the block with a limit on the CPU time of this process (ITIMER_PROF: independent of the load of the machine).
+    A lookup that goes round a cycle for ever -- the clause `terminates` -- ends in _NoTermination instead of hanging the check."""
+    def handler(signum, frame):
+        raise _NoTermination()
     try:
-        return entry._find_field(name, bib) if bib is not None else entry._find_field(name)
+        old = signal.signal(signal.SIGPROF, handler)
+    except ValueError:          # not the main thread: no watchdog
+        yield
+        return
+    signal.setitimer(signal.ITIMER_PROF, seconds)
+    try:
+        yield
+    finally:
+        signal.setitimer(signal.ITIMER_PROF, 0)
+        signal.signal(signal.SIGPROF, old)
+
+
+def _lookup(entry, name, bib):
+    if bib is not None and _STATE['timed_out']:
+        return SKIPPED
+    try:
+        # a lookup takes microseconds (milliseconds on a chain of a thousand entries); half a second of CPU time is "never".
+        # A tree on which lookups have already failed to terminate gets less patience (thousands of cases will do the same).
+        with _cpu_limit(0.5 if _STATE['count'] < 3 else 0.05):
+            return entry._find_field(name, bib) if bib is not None else entry._find_field(name)
     except KeyError:
         return None
+    except _NoTermination:
+        _STATE['timed_out'] = True
+        _STATE['count'] += 1
+        return NO_TERMINATION
     except Exception as e:  # noqa
         return compat.pybtex_error_kind(e)
 
@@ -77,12 +129,14 @@ def _api(text, names):
         return k, k
 
 
-def _bst(text, cits):
+def _bst(text, cits, m=2):
     from pybtex import errors
     import pybtex.bibtex
+    if _STATE['timed_out']:
+        return SKIPPED, SKIPPED
     try:
-        with errors.capture() as errs:
-            out = pybtex.bibtex.format_from_string(text, dbcommon.bst_path('c14', BST), citations=list(cits), min_crossrefs=2)
+        with errors.capture() as errs, _cpu_limit(30.0):
+            out = pybtex.bibtex.format_from_string(text, dbcommon.bst_path('c14', BST), citations=list(cits), min_crossrefs=m)
         rows = []
         for key, lines in dbcommon.split_bibitems(out):
             vals = {}
@@ -92,6 +146,9 @@ def _bst(text, cits):
                     vals[n] = None if v == '<MISSING>' else v
             rows.append([key, [vals.get(n, 'UNPARSED') for n in BST_NAMES]])
         return rows, [dbcommon.report(e) for e in errs]
+    except _NoTermination:
+        _STATE['timed_out'] = True
+        return NO_TERMINATION, NO_TERMINATION
     except Exception as e:  # noqa
         k = compat.pybtex_error_kind(e)
         return k, k
@@ -102,18 +159,20 @@ def tokens(file):
     t = {n: set() for n in PY_NAMES}
     for e in file:
         for n, v in e['fields']:
-            if n.lower() in t:
+            if n.lower() in t and v:
                 t[n.lower()].add(v)
     return t
 
 
-def _py(text, cits, file):
+def _py(text, cits, file, m=2):
     from pybtex import errors
     import pybtex
+    if _STATE['timed_out']:
+        return SKIPPED, SKIPPED
     try:
         _p, style, kw = _plugins()
-        with errors.capture() as errs:
-            out = pybtex.format_from_string(text, style, citations=list(cits), min_crossrefs=2,
+        with errors.capture() as errs, _cpu_limit(30.0):
+            out = pybtex.format_from_string(text, style, citations=list(cits), min_crossrefs=m,
                                             output_backend=dbcommon.key_backend(), **kw)
         toks = tokens(file)
         rows = []
@@ -125,6 +184,9 @@ def _py(text, cits, file):
                 vals.append(None if not found else found[0] if len(found) == 1 else 'AMBIGUOUS:%r' % (found,))
             rows.append([key, vals])
         return rows, [dbcommon.report(e) for e in errs]
+    except _NoTermination:
+        _STATE['timed_out'] = True
+        return NO_TERMINATION, NO_TERMINATION
     except Exception as e:  # noqa
         k = compat.pybtex_error_kind(e)
         return k, k
@@ -150,9 +212,14 @@ def _api_direct(file, names):
 
 
 def impl(case):
+    _STATE['timed_out'] = False
     if case['op'] == 'findfield_api':
         api, nodb = _api_direct(case['file'], case['names'])
         return {'api': api, 'api_nodb': nodb}
+    if case['op'] == 'findchain':
+        return _impl_chain(case)
+    if case['op'] == 'pystyles':
+        return _impl_styles(case)
     text = dbcommon.bib_text(case['file'])
     cits = [e['key'] for e in case['file']]
     api, nodb = _api(text, case['names'])
@@ -167,7 +234,30 @@ def impl(case):
         out['bst_leaf'] = [vals[:4] for k, vals in rows if k.lower() == leaf[0].lower()] if isinstance(rows, list) else rows
         rows, _r = _py(text, leaf, case['file'])
         out['py_leaf'] = [vals for k, vals in rows if k.lower() == leaf[0].lower()] if isinstance(rows, list) else rows
+        # the same with min_crossrefs = 1: the parent of the cited entry is appended and shown too
+        out['bst_leaf1'], _r = _bst(text, leaf, 1)
+        out['py_leaf1'], _r = _py(text, leaf, case['file'], 1)
     return out
+
+
+def _impl_chain(case):
+    """a long file, looked at from its first entry only (entry API; both engines with only that entry cited)"""
+    from pybtex import errors
+    from pybtex.database import parse_string
+    text = dbcommon.bib_text(case['file'])
+    leaf = [case['file'][0]['key']] if case['file'] else []
+    try:
+        with errors.capture():
+            bib = parse_string(text, _plugins()[0])
+        first = list(bib.entries.values())[:1]
+        api = [_lookup(first[0], n, bib) for n in case['names']] if first else None
+    except Exception as e:  # noqa
+        api = compat.pybtex_error_kind(e)
+    rows, _r = _bst(text, leaf)
+    bst = [[k, vals] for k, vals in rows if leaf and k.lower() == leaf[0].lower()] if isinstance(rows, list) else rows
+    rows, _r = _py(text, leaf, case['file'])
+    py = [[k, vals] for k, vals in rows if leaf and k.lower() == leaf[0].lower()] if isinstance(rows, list) else rows
+    return {'api': api, 'bst_leaf': bst, 'py_leaf': py}
 
 
 def _leaf_eligible(file):
@@ -182,34 +272,201 @@ def _leaf_eligible(file):
     return True
 
 
-def model_out(case, reply):
-    out = dict(reply['out'])
-    if case['op'] == 'findfield_api':
-        return out
-    idx = [case['names'].index(n) for n in PY_NAMES]
-    if isinstance(out['py'], list):
-        out['py'] = [[k, [vals[i] for i in idx]] for k, vals in out['py']]
-    if _leaf_eligible(case['file']):
-        # what the property demands for the first entry when it alone is cited: the same values (the specification's lookup)
-        vals = reply['spec']['lookup'][0][1]
-        out['bst_leaf'] = [[vals[case['names'].index(n)] for n in BST_NAMES[:4]]]
-        out['py_leaf'] = [[vals[i] for i in idx]]
+# ---------------------------------------------------------------- the Python styles (names node, labels, sorting)
+
+STYLE_ROLES = ['author', 'editor']
+STYLE_FIELDS = ['title', 'year', 'booktitle', 'publisher', 'journal', 'key', 'note']
+STYLES = ['unsrt', 'plain', 'alpha']
+
+
+def py_lookup(file, i, name):
+    """An independent re-statement of the reference lookup (used to write the inherited values out; the oracle checks it against
+    the Lean specification): value of the first entry along the chain that defines `name` as a field or role."""
+    first = {}
+    for j, e in enumerate(file):
+        first.setdefault(e['key'].lower(), j)
+    seen = set()
+    while True:
+        e = file[i]
+        for n, v in e['fields']:
+            if n.lower() == name.lower():
+                return v
+        for r, ns in e['persons']:
+            if r.lower() == name.lower():
+                return ' and '.join(ns)
+        x = _xref(e)
+        if x is None or x.lower() not in first or x.lower() in seen:
+            return None
+        seen.add(x.lower())
+        i = first[x.lower()]
+
+
+def flatten(file):
+    """the same database with every inherited value written out in the entry that inherits it"""
+    out = []
+    for i, e in enumerate(file):
+        fields = [list(f) for f in e['fields']]
+        persons = [[r, list(ns)] for r, ns in e['persons']]
+        have = {n.lower() for n, _ in fields} | {r.lower() for r, _ in persons}
+        for n in STYLE_FIELDS:
+            v = py_lookup(file, i, n)
+            if n not in have and v is not None:
+                fields.append([n, v])
+        for r in STYLE_ROLES:
+            v = py_lookup(file, i, r)
+            if r not in have and v is not None:
+                persons.append([r, v.split(' and ')])
+        out.append({'key': e['key'], 'type': e['type'], 'fields': fields, 'persons': persons})
     return out
 
 
-def valid_case(case):
-    if set(case) != {'op', 'file', 'names'} or case['op'] not in ('findfield', 'findfield_api'):
-        return False
-    if case['op'] == 'findfield_api':
-        return case['names'] == API_NAMES and dbcommon.valid_file(case['file'], allow_overlap=True)
-    if case['names'] != NAMES:
-        return False
-    if not dbcommon.valid_file(case['file']):
+def label_backend():
+    base = dbcommon.key_backend()
+
+    class LabelBackend(base):
+        def write_entry(self, key, label, text):
+            self.output('\\bibitem{%s}\n%s\n%s\n' % (key, label, text))
+    return LabelBackend
+
+
+def _style_plugins(style, by_name):
+    """the style and the label / name / sorting styles it defaults to, as classes (looking plug-ins up by name scans the
+    installed entry points: C17 is about that; every 16th case does it anyway)"""
+    if by_name:
+        return style, {}
+    import importlib
+    cls = importlib.import_module('pybtex.style.formatting.' + style).Style
+    from pybtex.style.names.plain import NameStyle
+    label = importlib.import_module('pybtex.style.labels.' + (cls.default_label_style or 'number')).LabelStyle
+    sorting = importlib.import_module('pybtex.style.sorting.' + (cls.default_sorting_style or 'none')).SortingStyle
+    return cls, {'label_style': label, 'name_style': NameStyle, 'sorting_style': sorting}
+
+
+def _style_run(text, style, cits, m, by_name=False):
+    from pybtex import errors
+    import pybtex
+    try:
+        cls, kw = _style_plugins(style, by_name)
+        with errors.capture() as errs, _cpu_limit(30.0):
+            out = pybtex.format_from_string(text, cls, citations=list(cits), min_crossrefs=m, output_backend=label_backend(),
+                                            bib_format=_plugins()[0], **kw)
+        items = [[k, lines[0] if lines else '', ' '.join(lines[1:]).strip()] for k, lines in dbcommon.split_bibitems(out)]
+        return {'items': items, 'reports': [dbcommon.report(e) for e in errs]}
+    except _NoTermination:
+        return {'error': NO_TERMINATION, 'message': 'no answer within 30 s of CPU time'}
+    except Exception as e:  # noqa
+        return {'error': compat.pybtex_error_kind(e), 'message': str(e)}
+
+
+def _impl_styles(case):
+    from pybtex import errors
+    from pybtex.database import parse_string
+    from pybtex.richtext import Text
+    from pybtex.style.template import names, field, FieldIsMissing
+
+    class PlainNames(object):
+        abbreviate_names = False
+
+        def format_name(self, person, abbr=False):
+            return Text(str(person))
+
+    def nodes_of(text):
+        with errors.capture():
+            bib = parse_string(text, _plugins()[0])
+        rows = []
+        for e in bib.entries.values():
+            ctx = {'entry': e, 'style': PlainNames(), 'bib_data': bib}
+            row = [e.key, [], [], []]
+            for r in STYLE_ROLES:
+                try:
+                    row[1].append(str(names(r, sep=' and ').format_data(ctx)))
+                except FieldIsMissing:
+                    row[1].append(None)
+            for n in STYLE_FIELDS:
+                try:
+                    row[2].append(field(n, raw=True).format_data(ctx))
+                except FieldIsMissing:
+                    row[2].append(None)
+                row[3].append(e.fields.get(n))          # what the label and sorting styles read
+            rows.append(row)
+        return rows
+
+    text = dbcommon.bib_text(case['file'])
+    try:
+        with _cpu_limit(30.0):
+            nodes = nodes_of(text)
+    except _NoTermination:
+        nodes = NO_TERMINATION
+    except Exception as e:  # noqa
+        nodes = compat.pybtex_error_kind(e)
+    flat = flatten(case['file'])
+    flat_text = dbcommon.bib_text(flat)
+    styles = {}
+    import json
+    import zlib
+    by_name = zlib.crc32(json.dumps(case, sort_keys=True).encode('utf-8')) % 16 == 0
+    for st in STYLES:
+        styles[st] = {'as_is': _style_run(text, st, case['citations'], case['min_crossrefs'], by_name),
+                      'written_out': _style_run(flat_text, st, case['citations'], case['min_crossrefs'], by_name)}
+    return {'nodes': nodes, 'styles': styles,
+            'flat': [[e['key'], [py_lookup(case['file'], i, r) for r in STYLE_ROLES], [py_lookup(case['file'], i, n) for n in STYLE_FIELDS]]
+                     for i, e in enumerate(case['file'])]}
+
+
+def compare_view(io):
+    """what is compared with the model: everything but the runs of the (unmodelled) styles"""
+    if isinstance(io, dict) and 'styles' in io:
+        return {'nodes': io['nodes']}
+    return io
+
+
+def to_request(case):
+    if case['op'] == 'pystyles':
+        req = dict(case)
+        req['names'] = STYLE_FIELDS
+        req['roles'] = STYLE_ROLES
+        return req
+    return case
+
+
+def _noempty(rows):
+    """the Python engine is observed through tokens: an empty value shows none"""
+    if not isinstance(rows, list):
+        return rows
+    return [[k, [None if v == '' else v for v in vals]] for k, vals in rows]
+
+
+def model_out(case, reply):
+    out = dict(reply['out'])
+    if case['op'] in ('findfield_api', 'pystyles'):
+        return out
+    idx = [case['names'].index(n) for n in PY_NAMES]
+
+    def pycols(rows):
+        return _noempty([[k, [vals[i] for i in idx]] for k, vals in rows]) if isinstance(rows, list) else rows
+
+    if case['op'] == 'findchain':
+        out['py_leaf'] = pycols(out['py_leaf'])
+        return out
+    out['py'] = pycols(out['py'])
+    if _leaf_eligible(case['file']):
+        first = case['file'][0]['key'].lower()
+        out['bst_leaf'] = [vals[:4] for k, vals in out['bst_leaf'] if k.lower() == first] if isinstance(out['bst_leaf'], list) else out['bst_leaf']
+        out['py_leaf'] = [vals for k, vals in pycols(out['py_leaf']) if k.lower() == first] if isinstance(out['py_leaf'], list) else out['py_leaf']
+        out['py_leaf1'] = pycols(out['py_leaf1'])
+    else:
+        for k in ('bst_leaf', 'py_leaf', 'bst_leaf1', 'py_leaf1'):
+            out.pop(k, None)
+    return out
+
+
+def _file_ok(case):
+    if not dbcommon.valid_file(case['file'], allow_empty=True):
         return False
     seen = set()
     for e in case['file']:
         for n, v in e['fields']:
-            if n.lower() in PY_NAMES:
+            if n.lower() in PY_NAMES and v:
                 if v in seen or len(v) < 3:
                     return False
                 seen.add(v)
@@ -219,7 +476,168 @@ def valid_case(case):
     return not any(a in b for a in vals for b in vals if a != b)
 
 
+def valid_case(case):
+    if case.get('op') == 'pystyles':
+        if set(case) != {'op', 'file', 'citations', 'min_crossrefs'} or not dbcommon.valid_file(case['file']):
+            return False
+        if not isinstance(case['min_crossrefs'], int) or isinstance(case['min_crossrefs'], bool) or not 1 <= case['min_crossrefs'] <= 3:
+            return False
+        keys = [e['key'].lower() for e in case['file']]
+        if len(set(keys)) != len(keys) or not all(dbcommon.KEY_OK.match(c) for c in case['citations']):
+            return False
+        for i, e in enumerate(case['file']):
+            if e['type'] not in ('book', 'inproceedings', 'misc', 'article'):
+                return False
+            names = [n.lower() for n, _ in e['fields']] + [r.lower() for r, _ in e['persons']]
+            if any(n not in STYLE_FIELDS + STYLE_ROLES + ['crossref'] for n in names):
+                return False
+            x = _xref(e)
+            if x is not None and x.lower() not in keys[i + 1:]:     # references point down the file (filtered reading keeps the parents)
+                return False
+        return True
+    if set(case) != {'op', 'file', 'names'} or case['op'] not in ('findfield', 'findfield_api', 'findchain'):
+        return False
+    if case['op'] == 'findfield_api':
+        return case['names'] == API_NAMES and dbcommon.valid_file(case['file'], allow_overlap=True, allow_empty=True)
+    if case['names'] != NAMES:
+        return False
+    if case['op'] == 'findchain':
+        # only whole chains / cycles as the generator builds them (a shrink that drops an entry from the middle of a file of
+        # hundreds is rejected here, cheaply, instead of being run)
+        file = case['file']
+        if not file:
+            return False
+        at = [i for i, e in enumerate(file) if any(n.lower() == 'note' for n, _ in e['fields'])]
+        closed = _xref(file[-1]) is not None
+        return len(at) <= 1 and any(case == _chain(len(file), at[0] if at else None, closed, oc) for oc in (False, True))
+    return _file_ok(case)
+
+
+def _tokview(v):
+    return None if v == '' else v
+
+
+def _oracle_chain(case, impl_out, reply):
+    spec = reply['spec']
+    names = case['names']
+    fails = []
+    want = spec['lookup']
+    n = len(case['file'])
+    api = impl_out['api']
+    if isinstance(api, str):
+        fails.append('%s: the entry API lookup from the first of %d entries raised %s' % ('terminates' if api.startswith('INTERNAL:') else 'never_crash', n, api))
+    elif api is not None:
+        for name, got, w in zip(names, api, want):
+            if got != w and got != SKIPPED:
+                tag = 'terminates' if isinstance(got, str) and got.startswith('INTERNAL:') else 'inherits_nearest' if w is not None else 'missing_iff'
+                fails.append('%s: api lookup of %r from the first of %d entries gives %r, the property demands %r' % (tag, name, n, got, w))
+    for side, cols, view in (('bst_leaf', BST_NAMES[:4], lambda v: v), ('py_leaf', PY_NAMES, _tokview)):
+        rows = impl_out[side]
+        if rows == SKIPPED:
+            continue
+        if isinstance(rows, str):
+            fails.append('%s: the %s observation of a file of %d entries (first one cited) raised %s' % (
+                'terminates' if rows.startswith('INTERNAL:') else 'never_crash', side, n, rows))
+            continue
+        exp = [view(want[names.index(c)]) for c in cols]
+        got = [vals[:len(cols)] for _k, vals in rows]
+        if got != [exp]:
+            fails.append('engines_agree: with only the first of %d entries cited the %s observation of %r is %r, the property demands %r' % (n, side, cols, got, [exp]))
+    return fails
+
+
+def inherits_style_input(case):
+    """entries (lower-cased keys) that lack a role, or a field the label / sorting styles read, which the reference lookup finds
+    in a cross-referenced parent -- the class of finding C14-python-engine-reads-own-persons"""
+    out = set()
+    for i, e in enumerate(case['file']):
+        have = {n.lower() for n, _ in e['fields']} | {r.lower() for r, _ in e['persons']}
+        for n in STYLE_ROLES + ['year', 'title', 'key']:
+            if n not in have and py_lookup(case['file'], i, n) is not None:
+                out.add(e['key'].lower())
+    return out
+
+
+def inherits_role(case):
+    """entries (lower-cased keys) that lack a person role which the reference lookup finds in a cross-referenced parent"""
+    out = set()
+    for i, e in enumerate(case['file']):
+        have = {n.lower() for n, _ in e['fields']} | {r.lower() for r, _ in e['persons']}
+        if any(r not in have and py_lookup(case['file'], i, r) is not None for r in STYLE_ROLES):
+            out.add(e['key'].lower())
+    return out
+
+
+def _oracle_styles(case, impl_out, reply):
+    spec = reply['spec']
+    fails = []
+    want = {k.lower(): (roles, fields) for k, roles, fields in spec['lookup']}
+    # the harness's written-out database is the reference lookup
+    for k, roles, fields in impl_out['flat']:
+        if (roles, fields) != tuple(want.get(k.lower(), (None, None))) and [x['key'].lower() for x in case['file']].count(k.lower()) == 1:
+            fails.append('harness_flatten: the written-out values of %r are %r, the reference lookup gives %r' % (k, (roles, fields), want.get(k.lower())))
+    inh = inherits_style_input(case)
+    nodes = impl_out['nodes']
+    if isinstance(nodes, str):
+        fails.append('never_crash: evaluating the template nodes raised %s' % nodes)
+    else:
+        for key, roles, fields, _own in nodes:
+            w = want[key.lower()]
+            for r, got, exp in zip(STYLE_ROLES, roles, w[0]):
+                if got != exp:
+                    tag = 'python_names_not_inherited' if (got is None and key.lower() in inh) else 'person_roles_joined'
+                    fails.append('%s: the names node of the Python engine gives %r for the role %r of entry %r, the property demands %r' % (tag, got, r, key, exp))
+            for n, got, exp in zip(STYLE_FIELDS, fields, w[1]):
+                if got != exp:
+                    fails.append('engines_agree: the field node of the Python engine gives %r for %r of entry %r, the property demands %r' % (got, n, key, exp))
+    for st in STYLES:
+        a, b = impl_out['styles'][st]['as_is'], impl_out['styles'][st]['written_out']
+        for run, name in ((a, 'as it is'), (b, 'with the inherited values written out')):
+            if 'error' in run and run['error'].startswith('INTERNAL:'):
+                fails.append('never_crash: style %s on the database %s raised %s' % (st, name, run['error']))
+        if 'error' in a or 'error' in b:
+            if a.get('error') != b.get('error') or ('error' in a and a.get('message') != b.get('message')):
+                # the run on the database as it is stops at a role that the entry does inherit
+                mm = re.match(r'^missing (\w+) in (.*)$', a.get('message', '')) if a.get('error') == 'FieldIsMissing' else None
+                # (a book wants author OR editor: the role named in the message need not be the inherited one)
+                mine = bool(mm and mm.group(1) in STYLE_ROLES and mm.group(2).lower() in inherits_role(case))
+                # both runs stop, at different entries: the sorting style put another entry first (sort key read from the entry itself)
+                if (not mine and a.get('error') == b.get('error') == 'FieldIsMissing' and st != 'unsrt' and inh
+                        and a['message'].split(' in ')[-1] != b['message'].split(' in ')[-1]):
+                    mine = True
+                tag = 'python_style_not_inherited' if mine else 'engines_agree'
+                fails.append('%s: style %s ends in %r on the database as it is and in %r with the inherited values written out' % (
+                    tag, st, a.get('message', 'a bibliography'), b.get('message', 'a bibliography')))
+            continue
+        ka, kb = [i[0] for i in a['items']], [i[0] for i in b['items']]
+        if sorted(ka) != sorted(kb):
+            fails.append('engines_agree: style %s emits %r as it is and %r with the inherited values written out' % (st, ka, kb))
+            continue
+        if ka != kb:
+            tag = 'python_style_not_inherited' if inh & {k.lower() for k in ka} else 'engines_agree'
+            fails.append('%s: style %s orders the entries %r; with the inherited values written out %r (sort key)' % (tag, st, ka, kb))
+        db_ = {i[0]: i for i in b['items']}
+        for k, label, text in a['items']:
+            if [label, text] != db_[k][1:]:
+                what = 'label' if text == db_[k][2] else 'text'
+                # numeric labels follow the order: a different number is the order difference reported above
+                if what == 'label' and ka != kb and label.isdigit():
+                    continue
+                # the text is the entry's own business; a label depends on the other entries too (suffix letters, numbers)
+                mine = k.lower() in inh if what == 'text' else bool(inh & {x.lower() for x in ka})
+                tag = 'python_style_not_inherited' if mine else 'engines_agree'
+                fails.append('%s: style %s shows entry %r as [%s] %r; with the inherited values written out it is [%s] %r (%s)' % (
+                    tag, st, k, label, text, db_[k][1], db_[k][2], what))
+        if a['reports'] != b['reports']:
+            fails.append('engines_agree: style %s reports %r as it is and %r with the inherited values written out' % (st, a['reports'], b['reports']))
+    return fails
+
+
 def oracle(case, impl_out, reply):
+    if case['op'] == 'findchain':
+        return _oracle_chain(case, impl_out, reply)
+    if case['op'] == 'pystyles':
+        return _oracle_styles(case, impl_out, reply)
     spec = reply['spec']
     names = case['names']
     fails = []
@@ -242,8 +660,10 @@ def oracle(case, impl_out, reply):
     sides = (('api', names),) if case['op'] == 'findfield_api' else (('api', names), ('bst', names), ('py', PY_NAMES))
     for side, cols in sides:
         rows = impl_out[side]
+        if rows == SKIPPED:
+            continue
         if isinstance(rows, str):
-            fails.append('%s: the %s observation raised %s' % ('terminates' if 'Recursion' in rows else 'never_crash', side, rows))
+            fails.append('%s: the %s observation raised %s' % ('terminates' if ('Recursion' in rows or 'NoTermination' in rows) else 'never_crash', side, rows))
             continue
         seen_keys = [k.lower() for k, _ in rows]
         if seen_keys != [k.lower() for k, _ in spec['lookup']]:
@@ -252,18 +672,42 @@ def oracle(case, impl_out, reply):
         for key, vals in rows:
             for n, got in zip(cols, vals):
                 i = names.index(n)
-                if got != want[key.lower()][i]:
+                exp = want[key.lower()][i]
+                if side == 'py':
+                    exp = _tokview(exp)
+                if got != exp and got != SKIPPED:
                     tag = clause(key, i, got)
                     if side != 'api' and tag in ('inherits_nearest', 'missing_iff', 'own_field_wins'):
                         tag = 'engines_agree'
-                    fails.append('%s: %s lookup of %r in entry %r gives %r, the property demands %r' % (tag, side, n, key, got, want[key.lower()][i]))
+                    fails.append('%s: %s lookup of %r in entry %r gives %r, the property demands %r' % (tag, side, n, key, got, exp))
     if 'bst_leaf' in impl_out:
         vals = spec['lookup'][0][1]
-        for side, cols in (('bst_leaf', BST_NAMES[:4]), ('py_leaf', PY_NAMES)):
-            exp = [[vals[names.index(n)] for n in cols]]
-            if impl_out[side] != exp:
+        for side, cols, view in (('bst_leaf', BST_NAMES[:4], lambda v: v), ('py_leaf', PY_NAMES, _tokview)):
+            exp = [[view(vals[names.index(n)]) for n in cols]]
+            if impl_out[side] != exp and impl_out[side] != SKIPPED:
                 fails.append('engines_agree: with only %r cited (its parents are read because it refers to them) the %s observation of %r is %r, '
                              'the property demands %r' % (case['file'][0]['key'], side, cols, impl_out[side], exp))
+        # min_crossrefs = 1: the parent is appended; every entry shown has its values, inherited ones included
+        first = case['file'][0]['key']
+        for side, cols, view in (('bst_leaf1', BST_NAMES[:4], lambda v: v), ('py_leaf1', PY_NAMES, _tokview)):
+            rows = impl_out[side]
+            if rows == SKIPPED:
+                continue
+            if isinstance(rows, str):
+                fails.append('%s: the %s observation raised %s' % ('terminates' if ('Recursion' in rows or 'NoTermination' in rows) else 'never_crash', side, rows))
+                continue
+            if [k.lower() for k, _ in rows][:1] != [first.lower()] or any(k.lower() not in want for k, _ in rows):
+                fails.append('engines_agree: with only %r cited and min_crossrefs 1 the %s observation shows the entries %r' % (first, side, [k for k, _ in rows]))
+                continue
+            for key, vals_ in rows:
+                exp = [view(want[key.lower()][names.index(n)]) for n in cols]
+                if vals_[:len(cols)] != exp:
+                    fails.append('engines_agree: with only %r cited and min_crossrefs 1 the %s observation of %r in entry %r is %r, the property demands %r' % (
+                        first, side, cols, key, vals_[:len(cols)], exp))
+                if side == 'bst_leaf1':
+                    p, got = par.get(key.lower()), vals_[-1]
+                    if (got is None) != (p is None) or (got is not None and got.lower() != p.lower()):
+                        fails.append('dangling: BST crossref of %r is %r (only %r cited, min_crossrefs 1), parent is %r' % (key, got, first, p))
     rows = impl_out['api_nodb']
     if isinstance(rows, list):
         for key, vals in rows:
@@ -293,6 +737,26 @@ def oracle(case, impl_out, reply):
     return fails
 
 
+def _python_reads_own(case, impl_out, text):
+    """Matcher for finding C14-python-engine-reads-own-persons: the failure is about the names node / a style of the Python
+    engine, the oracle attributed it to an entry that inherits a role or a label / sort input, and the case has such an entry."""
+    tag = text.split(':')[0]
+    if case.get('op') != 'pystyles' or tag not in ('python_names_not_inherited', 'python_style_not_inherited'):
+        return False
+    return bool(inherits_style_input(case))
+
+
+def _deep_chain(case, impl_out, text):
+    """Matcher for finding C14-deep-chain-recursion (void once proposed_fixes/C14-3 is applied): a RecursionError, on a chain or
+    cycle of several hundred entries looked up from its first entry -- never on the small graphs."""
+    return (case.get('op') == 'findchain' and len(case['file']) >= 400 and text.split(':')[0] == 'terminates'
+            and 'INTERNAL:RecursionError' in text)
+
+
+KNOWN_MATCHERS = {'C14-python-engine-reads-own-persons': _python_reads_own,
+                  'C14-deep-chain-recursion': _deep_chain}
+
+
 def _xref(e):
     for n, v in e['fields']:
         if n.lower() == 'crossref':
@@ -302,9 +766,28 @@ def _xref(e):
 
 def buckets(case, impl_out):
     file = case['file']
-    b = ['n=%d' % len(file), case['op']]
+    b = ['n=%d' % len(file) if len(file) < 10 else 'n>=%d' % (len(file) // 100 * 100), case['op']]
+    if case['op'] == 'pystyles':
+        b.append('cited=%d' % len(case['citations']))
+        b.append('m=%d' % case['min_crossrefs'])
+        if inherits_style_input(case):
+            b.append('inherits_role_or_label_input')
+        for st in STYLES:
+            run = impl_out.get('styles', {}).get(st, {}).get('as_is', {})
+            if 'error' in run:
+                b.append('%s_%s' % (st, run['error']))
+        return b
     if case['op'] == 'findfield_api' and any({n.lower() for n, _ in e['fields']} & {r.lower() for r, _ in e['persons']} for e in file):
         b.append('field_and_role_same_name')
+    if any(not v for e in file for _n, v in e['fields']):
+        b.append('empty_value')
+    if 'bst_leaf1' in impl_out:
+        b.append('first_entry_only_cited')
+    if case['op'] == 'findchain':
+        for side in ('api', 'bst_leaf', 'py_leaf'):
+            if isinstance(impl_out.get(side), str):
+                b.append(side + '_' + impl_out[side])
+        return b
     low = {e['key'].lower(): e for e in file}
     shapes = set()
     for e in file:
@@ -351,14 +834,15 @@ AUTH = {'a': ['Aa, Xa', 'Ab, Ya'], 'B': ['Ba, Xb'], 'c': ['Ca, Xc', 'Cb, Yc']}
 
 
 def _entry(key, xref, has_note, has_how, has_auth, names=('note', 'howpublished', 'crossref', 'author'), tag=None):
+    """has_note / has_how: False or 0 = no such field, True or 1 = a value, 2 = the empty value (`note = {}`)"""
     tag = tag or key
     fields = []
     if has_note:
-        fields.append([names[0], 'Nn' + tag])
+        fields.append([names[0], '' if has_note == 2 else 'Nn' + tag])
     if xref is not None:
         fields.append([names[2], xref])
     if has_how:
-        fields.append([names[1], 'Hh' + tag])
+        fields.append([names[1], '' if has_how == 2 else 'Hh' + tag])
     persons = [[names[3], AUTH.get(key, ['Zz, Q' + 'x'])]] if has_auth else []
     return {'key': key, 'type': 'misc', 'fields': fields, 'persons': persons}
 
@@ -369,12 +853,17 @@ def _graphs(n):
     return keys, list(itertools.product(targets, repeat=n))
 
 
+FLAGS = list(itertools.product([0, 1, 2], [0, 1], [False, True]))        # note: absent / value / empty; howpublished; author role
+FLAGS3 = list(itertools.product([0, 1, 2], [0, 1, 2], [False, True]))    # the sampled three-entry space: howpublished may be empty too
+
+
 def _exhaustive(n, rng=None, sample=None):
     keys, graphs = _graphs(n)
-    assigns = list(itertools.product(itertools.product([False, True], repeat=3), repeat=n))
-    combos = [(g, a) for g in graphs for a in assigns]
-    if sample is not None and sample < len(combos):
-        combos = rng.sample(combos, sample)
+    assigns = list(itertools.product(FLAGS if sample is None else FLAGS3, repeat=n))
+    if sample is not None and sample < len(graphs) * len(assigns):
+        combos = [(rng.choice(graphs), rng.choice(assigns)) for _ in range(sample)]
+    else:
+        combos = [(g, a) for g in graphs for a in assigns]
     cases = []
     for g, a in combos:
         file = [_entry(k, x, *flags) for k, x, flags in zip(keys, g, a)]
@@ -386,18 +875,82 @@ API_NAMES = ['author', 'note', 'zz']
 
 
 def _api_cases(n):
-    """every graph on n entries x every assignment of {field author, role author, field note}: a field and a role
-    of the same name are possible here (the field must win)"""
+    """every graph on n entries x every assignment of {field author (absent / value / EMPTY), role author, field note}: a field
+    and a role of the same name are possible here (the field must win, an empty one too)"""
     keys, graphs = _graphs(n)
-    assigns = list(itertools.product(itertools.product([False, True], repeat=3), repeat=n))
+    assigns = list(itertools.product(itertools.product([0, 1, 2], [False, True], [False, True]), repeat=n))
     cases = []
     for g in graphs:
         for a in assigns:
             file = []
             for k, x, (fa, ra, fn) in zip(keys, g, a):
-                fields = ([['author', 'Fa' + k]] if fa else []) + ([['crossref', x]] if x is not None else []) + ([['Note', 'Nn' + k]] if fn else [])
+                fields = ([['author', '' if fa == 2 else 'Fa' + k]] if fa else []) + ([['crossref', x]] if x is not None else []) + ([['Note', 'Nn' + k]] if fn else [])
                 file.append({'key': k, 'type': 'misc', 'fields': fields, 'persons': [['Author', AUTH[k]]] if ra else []})
             cases.append({'op': 'findfield_api', 'file': file, 'names': API_NAMES})
+    return cases
+
+
+def _chain(n, field_at, closed, other_case=False):
+    """k0 -> k1 -> ... -> k(n-1): one chain of n entries; `note` defined at position field_at (None: nowhere);
+    closed: the last entry refers back to the first"""
+    file = []
+    for i in range(n):
+        x = 'k%d' % (i + 1) if i + 1 < n else ('k0' if closed else None)
+        if x is not None and other_case and i % 2:
+            x = x.upper()
+        file.append(_entry('k%d' % i, x, field_at == i, False, False, tag='x%dx' % i))
+    return {'op': 'findchain', 'file': file, 'names': NAMES}
+
+
+def _chain_cases(tier):
+    cases = []
+    for n in ((300, 600, 1000) if tier == 'quick' else (300, 400, 450, 480, 500, 520, 600, 800, 1000)):
+        cases.append(_chain(n, n - 1, False))            # the value sits at the far end
+        cases.append(_chain(n, None, True, True))        # a cycle of n entries without the field: missing
+        cases.append(_chain(n, n // 2, True))            # a cycle, value half way round
+        if tier != 'quick':
+            cases.append(_chain(n, None, False))
+    return cases
+
+
+def _sentry(key, typ, xref, fields, persons):
+    f = [[n, v] for n, v in fields]
+    if xref is not None:
+        f.append(['crossref', xref])
+    return {'key': key, 'type': typ, 'fields': f, 'persons': [[r, list(ns)] for r, ns in persons]}
+
+
+def _style_cases(tier):
+    """a child (book / inproceedings / misc / article) above its parent, the values needed by the templates spread over the two:
+    every subset of {author, editor, year, title} defined by the child itself, the parent defining all of them; children only /
+    everything cited; min_crossrefs 1 and 2; plus pairs of children whose order and labels depend on inherited values"""
+    cases = []
+    people = {'author': ['Yb, Bb', 'Zc, Cc'], 'editor': ['Ee, Ff']}
+    parent_fields = [('title', 'Tpar'), ('year', '2001'), ('booktitle', 'Bpar'), ('publisher', 'Ppar'), ('journal', 'Jpar')]
+    for typ, ptyp in (('book', 'book'), ('inproceedings', 'proceedings'), ('misc', 'misc'), ('article', 'article')):
+        ptyp = ptyp if ptyp != 'proceedings' else 'book'
+        for own in itertools.product([False, True], repeat=4):
+            o_auth, o_ed, o_year, o_title = own
+            cf = ([('title', 'Tkid')] if o_title else []) + ([('year', '1999')] if o_year else [])
+            cp = ([('author', ['Aa, Xa'])] if o_auth else []) + ([('editor', ['Dd, Xd'])] if o_ed else [])
+            for pauth, ped in ((True, True), (True, False), (False, True)):
+                pp = ([('author', people['author'])] if pauth else []) + ([('editor', people['editor'])] if ped else [])
+                file = [_sentry('kid', typ, 'par', cf, cp), _sentry('par', ptyp, None, parent_fields, pp)]
+                for cits, m in ((['kid'], 2), (['kid'], 1), (['par', 'kid'], 2)):
+                    if tier == 'quick' and cits == ['par', 'kid'] and not (pauth and ped):
+                        continue
+                    cases.append({'op': 'pystyles', 'file': file, 'citations': cits, 'min_crossrefs': m})
+    # order and labels: two children and an entry of its own; the inherited author / year decides where the children sort
+    for a1, a2 in itertools.permutations(['Bb, Xb', 'Mm, Xm', 'Yy, Xy'], 2):
+        for y1, y2 in (('1990', '2005'), ('2005', '1990')):
+            for own_year in (False, True):
+                file = [_sentry('k1', 'misc', 'p1', [('title', 'T1')] + ([('year', '2000')] if own_year else []), []),
+                        _sentry('k2', 'misc', 'p2', [('title', 'T2')], [('author', ['Mm, Xm'])]),
+                        _sentry('solo', 'misc', None, [('title', 'T0'), ('year', '2000')], [('author', ['Mm, Xm'])]),
+                        _sentry('p1', 'misc', None, [('title', 'Tp1'), ('year', y1)], [('author', [a1])]),
+                        _sentry('p2', 'misc', None, [('title', 'Tp2'), ('year', y2)], [('author', [a2])])]
+                for cits in (['k1', 'k2', 'solo'], ['solo', 'k2', 'k1']):
+                    cases.append({'op': 'pystyles', 'file': file, 'citations': cits, 'min_crossrefs': 2})
     return cases
 
 
@@ -418,6 +971,8 @@ def _random_case(rng):
         r = rng.random()
         if shape < 0.4:      # one long chain, possibly closed into a cycle
             x = keys[i + 1] if i + 1 < n else (rng.choice(keys) if rng.random() < 0.5 else None)
+        elif shape < 0.55:   # references point down the file (the engines are then also observed with only the first entry cited)
+            x = rng.choice(keys[i + 1:]) if i + 1 < n and (i == 0 or rng.random() < 0.7) else None
         elif r < 0.25:
             x = None
         elif r < 0.9:
@@ -427,12 +982,40 @@ def _random_case(rng):
         if x is not None and rng.random() < 0.3:
             x = x.swapcase()
         names = (_cased(rng, 'note'), _cased(rng, 'howpublished'), _cased(rng, 'crossref'), _cased(rng, 'author'))
-        p = 0.25 if shape < 0.4 else 0.5
-        e = _entry(k, x, rng.random() < p, rng.random() < p, rng.random() < p, names, tag=LETTERS[i] * 2)
+        p = 0.25 if shape < 0.55 else 0.5
+
+        def flag():
+            return 0 if rng.random() >= p else 2 if rng.random() < 0.25 else 1
+        e = _entry(k, x, flag(), flag(), rng.random() < p, names, tag=LETTERS[i] * 2)
         if e['persons']:
             e['persons'][0][1] = ['P%s, Q%s' % (LETTERS[i], LETTERS[j]) for j in range(rng.randint(1, 3))]
         file.append(e)
     return {'op': 'findfield', 'file': file, 'names': NAMES}
+
+
+def _random_style_case(rng):
+    """a random forest whose references point down the file; types and values drawn so that the templates have what they need
+    somewhere along the chain (or not)"""
+    n = rng.randint(2, 6)
+    keys = ['e%d' % i for i in range(n)]
+    lasts = ['Bb', 'Mm', 'Yy', 'Cc', 'Nn', 'Zz']
+    file = []
+    for i, k in enumerate(keys):
+        typ = rng.choice(['book', 'inproceedings', 'misc', 'article'])
+        x = rng.choice(keys[i + 1:]) if i + 1 < n and rng.random() < 0.7 else None
+        root = x is None
+        fields, persons = [], []
+        for name, val in (('title', 'T%d' % i), ('year', str(1990 + 3 * i)), ('booktitle', 'B%d' % i), ('publisher', 'P%d' % i),
+                          ('journal', 'J%d' % i), ('key', 'K%dx' % i)):
+            if rng.random() < (0.85 if root and name != 'key' else 0.3 if name != 'key' else 0.1):
+                fields.append((name, val))
+        for role in ('author', 'editor'):
+            if rng.random() < (0.8 if root else 0.3):
+                persons.append((role, ['%s, X%s' % (rng.choice(lasts), LETTERS[i]) for _ in range(rng.randint(1, 2))]))
+        file.append(_sentry(k, typ, x, fields, persons))
+    cited = [k for k in keys if rng.random() < 0.6] or [keys[0]]
+    rng.shuffle(cited)
+    return {'op': 'pystyles', 'file': file, 'citations': cited, 'min_crossrefs': rng.choice([1, 2, 2, 3])}
 
 
 def gen_cases(tier, rng, info):
@@ -443,30 +1026,57 @@ def gen_cases(tier, rng, info):
     if tier == 'quick':
         import random
         fixed = random.Random(20260926)   # the slice of the 3-entry space does not depend on the seed
-        cases += _exhaustive(3, fixed, 12000)
+        cases += _exhaustive(3, fixed, 8000)
         info['scope'] = ('every graph on <=2 entries (crossref in {none, each key, each key in the other case, zz}) x every assignment of '
-                         'note/howpublished/author x all queries: %d cases; plus a fixed slice of 12000 of the 262144 three-entry cases' % n_small)
+                         'note (absent, value, empty), howpublished and author x all queries: %d cases; plus a fixed slice of 8000 of the '
+                         '2985984 three-entry cases (howpublished empty too)' % n_small)
     else:
-        cases += _exhaustive(3)
-        info['scope'] = ('every graph on <=3 entries (crossref in {none, each key, each key in the other case, zz}: 512 graphs on 3 entries) '
-                         'x every assignment of note/howpublished/author (512) x all queries: %d cases' % len(cases))
-    api = _api_cases(1) + _api_cases(2) + (_api_cases(3) if tier == 'thorough' else [])
+        import random
+        fixed = random.Random(20260926)
+        cases += _exhaustive(3, fixed, 150000)
+        info['scope'] = ('every graph on <=2 entries (crossref in {none, each key, each key in the other case, zz}) x every assignment of '
+                         'note (absent, value, empty), howpublished and author x all queries: %d cases; plus a fixed slice of 150000 of the '
+                         '2985984 three-entry cases (howpublished empty too)' % n_small)
+    api = _api_cases(1) + _api_cases(2) + (_api_cases(3)[::7] if tier == 'thorough' else [])
     cases += api
-    info['scope'] += '; entry API on databases built from Entry objects (field and role of one name possible): %d cases' % len(api)
+    info['scope'] += '; entry API on databases built from Entry objects (field and role of one name possible, empty field values): %d cases' % len(api)
+    chains = _chain_cases(tier)
+    cases += chains
+    info['scope'] += '; chains and cycles of %s entries looked up from the first entry: %d cases' % (
+        sorted({len(c['file']) for c in chains}), len(chains))
+    styles = _style_cases(tier)
+    cases += styles
+    info['scope'] += ('; Python-engine nodes and styles unsrt/plain/alpha on child/parent pairs (every subset of author, editor, year, title own '
+                      'vs inherited x entry types book, inproceedings, misc, article x children only / all cited x min_crossrefs 1, 2) and on '
+                      'sets of entries whose order and labels depend on inherited values: %d cases' % len(styles))
     info['exhaustive'] = True
     for _ in range(3000 if tier == 'quick' else 40000):
         cases.append(_random_case(rng))
-    return cases
+    for _ in range(300 if tier == 'quick' else 6000):
+        cases.append(_random_style_case(rng))
+    # spread the slow cases (styles, long chains) evenly over the list: the work is handed to the workers in contiguous chunks
+    slow = [c for c in cases if c['op'] in ('pystyles', 'findchain')]
+    fast = [c for c in cases if c['op'] not in ('pystyles', 'findchain')]
+    step = max(1, len(fast) // max(1, len(slow)))
+    out = []
+    for i, c in enumerate(fast):
+        if i % step == 0 and slow:
+            out.append(slow.pop())
+        out.append(c)
+    return out + slow
 
 
 LEVEL_TEXT = ('Machine-checked proofs (Lean 4) over an executable model of Entry._find_field / _find_person_field / '
-              '_find_crossref_field (with the cycle guard of proposed_fixes/C14-1), the interpreter\'s Field.value / MissingField and '
-              'the template field node with the bib_data of the formatting context (proposed_fixes/C14-2): the lookup is a total '
-              'function (well-founded on the number of database keys not yet followed) and equals the reference lookup "value of the '
-              'first entry along the cross-reference chain that defines the field or role", for every graph.  Tied to the code by a '
-              'correspondence check exhaustive over all graphs on <=3 entries x all field assignments x all queries, observed through '
-              'the entry API, a generated .bst and the unsrt style.')
+              '_find_crossref_field (with the cycle guard of proposed_fixes/C14-1), the interpreter\'s Field.value / MissingField, '
+              'the template nodes field and names with the bib_data of the formatting context (proposed_fixes/C14-2): the lookup is a total '
+              'function (well-founded on the number of database keys not yet followed; it follows at most as many cross-references as '
+              'there are entries) and equals the reference lookup "value of the first entry along the cross-reference chain that defines '
+              'the field or role", for every graph.  Tied to the code by a correspondence check exhaustive over all graphs on <=2 entries '
+              '(and a slice of 3) x all field assignments incl. empty values x all queries, observed through the entry API, a generated '
+              '.bst and the unsrt style, with every entry or only the first one cited, on chains of up to 1000 entries, and through the '
+              'names / field nodes and the unsrt, plain, alpha styles.')
 LEVEL_NOTE = ('Trusted: Lean kernel; axioms propext/Classical.choice/Quot.sound only; the hand-written model corresponds to the code only '
               'as far as the differential check explores; persons are modelled as already formatted strings (str(Person) is C04/C02); '
-              'Text.from_latex and the unsrt template are exercised, not modelled (values are plain tokens); the unsrt style shows roles '
-              'through the names node, which does not inherit, so role inheritance is observed through the API and the BST engine only.')
+              'Text.from_latex and the templates are exercised, not modelled (values are plain tokens).  The Python engine shows person '
+              'roles through the names node and computes labels and sort keys from the entry itself: an INHERITED role / year / title is '
+              'not seen there (C14_python_names_partial + C14_python_names_neg; finding C14-python-engine-reads-own-persons).')
